@@ -32,13 +32,13 @@ def alignment_of(job):
     return int(a[idx[-1] + 1]) if idx else 16   # argparse keeps the last occurrence
 
 
-CALL_OPTS = ("CondSubgraphIndex", "BodySubgraphIndex", "ThenSubgraphIndex", "ElseSubgraphIndex", "InitSubgraphIndex")
+CALL_OPTS = ("CondSubgraphIndex", "BodySubgraphIndex", "ThenSubgraphIndex", "ElseSubgraphIndex", "InitSubgraphIndex", "Subgraph")
 
 
 def callees(op, nsg):
-    """subgraphs a control-flow operator (WHILE / IF / CALL_ONCE) invokes, in the order cond, body / then, else / init"""
+    """subgraphs a control-flow operator (WHILE / IF / CALL_ONCE / CALL) invokes, in the order cond, body / then, else / init"""
     o = op.get("options") or {}
-    if op["opcode"] not in ("WHILE", "IF", "CALL_ONCE"):
+    if op["opcode"] not in ("WHILE", "IF", "CALL_ONCE", "CALL"):
         return []
     return [o[k] for k in CALL_OPTS if isinstance(o.get(k), int) and 0 < o[k] < nsg]
 
